@@ -12,15 +12,18 @@ was asked to do (`shutdowns`, `closed`) and what it answers (`peer`, `sockname`,
 `arrive` is the environment's move: a new connection lands in the listen socket's accept queue.
 Object identity (`is`) is the socket id / the position in the table.
 
-Two versions (D14): `orig` = `self.shutdownIx[ca]` (subscripting a bound method: TypeError),
-`fixed` = `self.shutdownIx(ca)` (fixes/D14-*.patch).
+Versions: `orig` = `self.shutdownIx[ca]` (subscripting a bound method: TypeError, D14),
+`fixed` = `self.shutdownIx(ca)` (fixes/D14-*.patch), `fixed2` = also fixes/D14b-*.patch
+(`ServerTls` shuts a stale incomer down before `self.cxes[ca] = incomer` / `self.ixes[ca] = cx`).
 Core Lean only.
 -/
 namespace Ioflo.Server
 
 abbrev Addr := Nat
 
-inductive Version | orig | fixed
+/-- `orig` = as found; `fixed` = with D14; `fixed2` = also with D14b (ServerTls shuts a stale entry down
+before replacing it, in `.cxes` and in `.ixes`) -/
+inductive Version | orig | fixed | fixed2
   deriving DecidableEq, Repr
 
 /-- answer of one `do_handshake()` call -/
@@ -133,6 +136,13 @@ def shutcloseIncomer (socks : List Sock) (ix : Incomer) : List Sock × Incomer :
      { ix with hasCs := false, connected := false })
   else (socks, ix)
 
+/-- fixes/D14b: `if ca in tab and tab[ca] is not new: tab[ca].shutdown()` ahead of `tab[ca] = new`
+(a freshly built incomer, or one moving over from `.cxes`, is never the object already in `tab`) -/
+def shutStale (v : Version) (socks : List Sock) (tab : List (Addr × Incomer)) (ca : Addr) : List Sock :=
+  match v, get? tab ca with
+  | .fixed2, some old => shutdownIncomer socks old
+  | _, _ => socks
+
 /-! ### accepting -/
 
 /-- `Acceptor.serviceAccepts`: `while True: cs, ca = self.accept(); if not cs: break; self.axes.append((cs, ca))` -/
@@ -149,15 +159,16 @@ def admitOne (v : Version) (s : State) (cs : Nat) (ca : Addr) : Res :=
     else
       let incomer : Incomer := { sock := cs, ca := k.peer }
       if s.tls then
-        -- `self.cxes[ca] = incomer`
-        .ok { s with cxes := put s.cxes ca incomer, admitted := s.admitted ++ [cs] }
+        -- [`if ca in self.cxes …: self.cxes[ca].shutdown()`]  `self.cxes[ca] = incomer`
+        .ok { s with socks := shutStale v s.socks s.cxes ca, cxes := put s.cxes ca incomer,
+                     admitted := s.admitted ++ [cs] }
       else
         match get? s.ixes ca with
         | some old =>
           -- `if ca in self.ixes and self.ixes[ca] is not incomer:` (a fresh object is never the old one)
           match v with
           | .orig => .raised .typeError s          -- `self.shutdownIx[ca]`
-          | .fixed =>
+          | _ =>
             -- `self.shutdownIx(ca)` → `self.ixes[ca].shutdown(how=how)`; then `self.ixes[ca] = incomer`
             .ok { s with socks := shutdownIncomer s.socks old, ixes := put s.ixes ca incomer,
                          admitted := s.admitted ++ [cs] }
@@ -180,9 +191,9 @@ def serviceAxes (v : Version) (s : State) : Res :=
 
 /-- `cx.serviceHandshake()` for the incomer stored under `ca` in `.cxes`; on success
 `self.ixes[ca] = cx; del self.cxes[ca]` -/
-def shakeOne (s : State) (ca : Addr) (cx : Incomer) : Res :=
+def shakeOne (v : Version) (s : State) (ca : Addr) (cx : Incomer) : Res :=
   if cx.connected then
-    .ok { s with ixes := put s.ixes ca cx, cxes := del s.cxes ca }
+    .ok { s with socks := shutStale v s.socks s.ixes ca, ixes := put s.ixes ca cx, cxes := del s.cxes ca }
   else if !cx.hasCs then .raised .attributeError s             -- `self.cs.do_handshake()` on None
   else
     match s.socks[cx.sock]? with
@@ -193,26 +204,27 @@ def shakeOne (s : State) (ca : Addr) (cx : Incomer) : Res :=
       | .want => .ok { s with socks := socks }                  -- `return False`
       | .done =>
         let cx' := { cx with connected := true }
-        .ok { s with socks := socks, ixes := put s.ixes ca cx', cxes := del s.cxes ca }
+        -- [`if ca in self.ixes and self.ixes[ca] is not cx: self.shutdownIx(ca)`]
+        .ok { s with socks := shutStale v socks s.ixes ca, ixes := put s.ixes ca cx', cxes := del s.cxes ca }
       | .fail =>
         -- `self.shutclose(); raise`
         .raised .handshakeError { s with socks := (shutcloseIncomer socks cx).1,
                                          cxes := put s.cxes ca (shutcloseIncomer socks cx).2 }
 
 /-- `for ca, cx in self.cxes.items():` over the snapshot (`odict.items()` is a list copy) -/
-def cxesLoop (s : State) : List (Addr × Incomer) → Res
+def cxesLoop (v : Version) (s : State) : List (Addr × Incomer) → Res
   | [] => .ok s
   | (ca, cx) :: rest =>
-    match shakeOne s ca cx with
-    | .ok s' => cxesLoop s' rest
+    match shakeOne v s ca cx with
+    | .ok s' => cxesLoop v s' rest
     | .raised e s' => .raised e s'
 
-def serviceCxes (s : State) : Res := cxesLoop s s.cxes
+def serviceCxes (v : Version) (s : State) : Res := cxesLoop v s s.cxes
 
 /-- `Server.serviceConnects` = `serviceAxes`; `ServerTls.serviceConnects` = `serviceAxes; serviceCxes` -/
 def serviceConnects (v : Version) (s : State) : Res :=
   match serviceAxes v s with
-  | .ok s' => if s'.tls then serviceCxes s' else .ok s'
+  | .ok s' => if s'.tls then serviceCxes v s' else .ok s'
   | r => r
 
 /-! ### table maintenance -/
@@ -281,7 +293,7 @@ def step (v : Version) (s : State) : Op → Res
                  pending := s.pending ++ [(s.socks.length, reported)] }
   | .serviceAccepts => .ok (serviceAccepts s)
   | .serviceAxes => serviceAxes v s
-  | .serviceCxes => if s.tls then serviceCxes s else .ok s     -- only `ServerTls` has it
+  | .serviceCxes => if s.tls then serviceCxes v s else .ok s   -- only `ServerTls` has it
   | .serviceConnects => serviceConnects v s
   | .serviceAll => serviceAll v s
   | .shutdownIx ca => shutdownIx s ca
